@@ -14,6 +14,7 @@ ENGINES = {
     "seq": {"shards_thorough": 14},
     "seq0": {"shards_thorough": 14},
     "seqp": {"shards_thorough": 14},
+    "seqx": {"shards_thorough": 14},
 }
 
 PROPS = {
@@ -27,7 +28,7 @@ PROPS = {
         "assumptions": ["displayed + hidden <= u64::MAX (the property's quantifier)"],
     },
     "C06": {
-        "engines": ["seq0", "deep"],
+        "engines": ["seq0", "deep", "seqx"],
         "footprint": {"match": "*", "state": ["vis", "list"]},
         "hang_is_violation": True,
         "nontrivial": r"^match txs=\[[^\]]+\] rem=[1-9]",   # a match that executed something and still had quantity left
@@ -39,7 +40,7 @@ PROPS = {
         "assumptions": ["ids unique among resting orders; sums below 2^63 (the property's quantifier)"],
     },
     "C01": {
-        "engines": ["seq", "seq0", "seqr"],
+        "engines": ["seq", "seq0", "seqr", "seqx"],
         "footprint": {"state": ["vis", "hid", "cnt", "list"]},
         "nontrivial": r"^match txs=\[[^\]]+\]",
         "rule": "E-seq (positive quantities) and E-seq0 (zero quantities allowed): random histories (1-40 ops, thorough 1-120) of "
@@ -48,7 +49,7 @@ PROPS = {
         "assumptions": ["ids unique among resting orders; price*quantity sums below 2^63 (the property's quantifier)"],
     },
     "C02": {
-        "engines": ["seq", "seq0", "seqp", "pure"],
+        "engines": ["seq", "seq0", "seqp", "pure", "seqx"],
         "footprint": {"match": "*", "atx": "*"},
         "nontrivial": r"^match txs=\[[^\]]*,[^\]]*\]|^atx \d+:\d+ \d",
         "rule": "E-seq/E-seq0 histories as for C01, every match result compared field by field and judged by C02.ok on the real "
@@ -57,7 +58,7 @@ PROPS = {
         "assumptions": ["as C01; transaction ids are mapped back to counter values through v5(namespace, k) computed by the harness"],
     },
     "C07": {
-        "engines": ["seq", "seq0", "seqp"],
+        "engines": ["seq", "seq0", "seqp", "seqx"],
         "purity_probe": True,
         "footprint": {"upd": "*", "state": ["vis", "hid", "cnt", "list"], "add": "*", "match": "*", "read": "*"},
         "nontrivial": r"^upd ok=[A-Z]",
@@ -67,7 +68,7 @@ PROPS = {
         "assumptions": ["as C01"],
     },
     "C15": {
-        "engines": ["seq", "seq0", "conc"],
+        "engines": ["seq", "seq0", "conc", "seqx"],
         "footprint": {"state": ["stats"]},
         "nontrivial": r"^match txs=\[[^\]]+\]",
         "rule": "E-seq/E-seq0 histories; the four counters compared after every op and judged by C15.ok against the events the harness "
@@ -88,7 +89,7 @@ PROPS = {
         "assumptions": ["no push of an id that is currently queued (the property's quantifier: pushed once or re-pushed after removal)"],
     },
     "C04": {
-        "engines": ["seq", "seq0"],
+        "engines": ["seq", "seq0", "seqx"],
         "footprint": {"match": ["txs"]},
         "nontrivial": r"^match txs=\[[^\]]*,[^\]]*\]",
         "rule": "E-seq/E-seq0 histories (adds, matches of any size, cancels, re-adds of cancelled ids, same-price amends, all order kinds) "
